@@ -199,6 +199,11 @@ def check_crate(fx, rep, crate, cfg):
                 info = body.switch_info(sw2)
                 if info and info.get('kind') == 'discr' and info['place']['l'] == st['dest']['l'] and info['place'].get('p'):
                     esw = (sw2, info)
+                elif info and info.get('kind') == 'discr' and esw is None and 'json_ser::Error' in (info['place'].get('ty') or ''):
+                    # the error moved into a local first (`Err(error) => error`, then `if let BufferTooSmall = error`)
+                    pt = body.trace_place(dict(info['place'], p=None)) if not info['place'].get('p') else {}
+                    if pt.get('kind') == 'place' and pt.get('base') == st['dest']['l'] and any(isinstance(e, dict) and e.get('dc') == 'Err' for e in pt['place'].get('p') or []):
+                        esw = (sw2, info)
             via = None
             if esw:
                 sw2, info = esw
